@@ -7,18 +7,23 @@ META = {
     "technique": "Lean 4 theorems over a checked-semantics model of BigInt<Number_T,Width> (any word width W, any word count n) + model/implementation correspondence on boundary-biased operation sequences and an exhaustive double-word helper domain",
     "level": "proof",
     "design_ref": "DESIGN.md §6 C19, notes/design-bigint.md",
-    "text": "Kernel-checked theorems: under the representation invariant (n words < 2^W, words above index_ zero, index_ = highest non-zero word) every operation whose exact result fits returns without an out-of-range storage access, re-establishes the invariant and holds exactly the mathematical result (add, subtract, multiply/divide by a word with exact remainder, shifts, set, or/and, comparisons, narrowing, bit scans), lifted to all operation sequences; the half-word double-width multiply is exact for every half width. The model is tied to Include/BigInt.hpp by running identical operation sequences on 20 real instantiations (8/16/32/64-bit words, 64..2048 bits) and comparing Storage(), Index() and every returned value step by step, and by running the DoubleSize helpers exhaustively at 8-bit words.",
+    "text": "Kernel-checked theorems (Props.C19.C19, C19_sequences): for every word width W >= 1, every word count n >= 1 and both double-word helper variants, under the representation invariant (n words < 2^W, words above index_ zero, index_ = highest non-zero word) every operation whose exact result fits returns without an out-of-range storage access, re-establishes the invariant and holds exactly the mathematical result (set from any wider type, add, subtract, or, and with operands of any realisable width, multiply/divide by a word with exact remainder, shifts by any amount, comparisons, predicates, narrowing to any width, both bit scans), lifted to all operation sequences by induction; the half-word double-width multiply and divide helpers are exact for every half width h >= 1. The model is tied to Include/BigInt.hpp by running identical operation sequences on 20 real instantiations (8/16/32/64-bit words, 64..2048 bits) and comparing Storage(), Index() and every returned value step by step, and by running the DoubleSize helpers exhaustively at 8-bit words.",
     "note": "Trusted: Lean kernel; axioms ⊆ {propext, Quot.sound, Classical.choice}; the correspondence harness (ASan/UBSan, exact-size heap object). The hand-rolled DoubleSize<_,64> is run at h=4/h=8 through a no-promotion integer class (harness NP<R>), at h=16/32 on the built-in types.",
 }
 
 THEOREMS = [
+    "Qentem.Props.C19.C19",
+    "Qentem.Props.C19.C19_sequences",
     "Qentem.Props.C19.step_exact",
     "Qentem.Props.C19.run_exact",
     "Qentem.Props.C19.C19_native",
-    "Qentem.Props.C19.C19_full_of_div_helper",
     "Qentem.Props.C19.sequence_exact_native",
     "Qentem.Props.C19.sequence_exact_hand",
     "Qentem.Props.C19.mul_helper_exact",
+    "Qentem.Props.C19.div_helper_exact",
+    "Qentem.BigInt.mulHand_exact",
+    "Qentem.BigInt.divHand_exact",
+    "Qentem.BigInt.divRound_spec",
     "Qentem.BigInt.add_spec",
     "Qentem.BigInt.sub_spec",
     "Qentem.BigInt.multiply_spec",
@@ -28,9 +33,12 @@ THEOREMS = [
     "Qentem.BigInt.mulOK_native",
     "Qentem.BigInt.mulOK_hand",
     "Qentem.BigInt.divOK_native",
+    "Qentem.BigInt.divOK_hand",
     "Qentem.BigInt.assign_small_spec",
     "Qentem.BigInt.assign_wide_spec",
+    "Qentem.BigInt.add_small_spec",
     "Qentem.BigInt.add_wide_spec",
+    "Qentem.BigInt.sub_small_spec",
     "Qentem.BigInt.sub_wide_spec",
     "Qentem.BigInt.or_small_spec",
     "Qentem.BigInt.or_wide_spec",
@@ -44,10 +52,10 @@ THEOREMS = [
     "Qentem.BigInt.findLastBit_spec",
     "Qentem.BigInt.findFirstBit_spec",
     "Qentem.BigInt.clear_spec",
+    "Qentem.BigInt.inv_zero",
 ]
 
-OPEN = ["Qentem.Props.C19.C19_full (follows from div_helper_exact: C19_full_of_div_helper)",
-        "Qentem.Props.C19.div_helper_exact (half-word divide exact for every half width)"]
+OPEN = []
 
 # (W, n) of the fixed instantiations compiled into harness/bigint_harness.cpp
 INST = [(8, 8), (8, 9), (8, 16), (8, 32), (8, 256),
